@@ -1,0 +1,38 @@
+//go:build verif
+
+// Contracts for functions outside the repository.  These are TRUSTED (not verified): each is
+// listed in the evidence file's trusted_base.  Comment-only file; it contributes no code.
+
+package dns
+
+//@ extern (encoding/binary.bigEndian).Uint16
+//@   requires len(b) >= 2
+//@   ensures ret0 == b[0]*256 + b[1]
+//@   pure
+//@ extern (encoding/binary.bigEndian).Uint32
+//@   requires len(b) >= 4
+//@   ensures ret0 == b[0]*16777216 + b[1]*65536 + b[2]*256 + b[3]
+//@   pure
+//@ extern (encoding/binary.bigEndian).Uint64
+//@   requires len(b) >= 8
+//@   ensures ret0 == b[0]*72057594037927936 + b[1]*281474976710656 + b[2]*1099511627776 + b[3]*4294967296 + b[4]*16777216 + b[5]*65536 + b[6]*256 + b[7]
+//@   pure
+//@ extern (encoding/binary.bigEndian).PutUint16
+//@   requires len(b) >= 2
+//@   ensures b[0] == v / 256 && b[1] == v % 256
+//@   ensures forall k in 2..len(b) :: b[k] == old(b[k])
+//@   modifies A.uint8.v
+//@ extern (encoding/binary.bigEndian).PutUint32
+//@   requires len(b) >= 4
+//@   ensures b[0] == v / 16777216 && b[1] == (v / 65536) % 256 && b[2] == (v / 256) % 256 && b[3] == v % 256
+//@   modifies A.uint8.v
+//@ extern (encoding/binary.bigEndian).PutUint64
+//@   requires len(b) >= 8
+//@   modifies A.uint8.v
+
+//@ extern fmt.Errorf
+//@   ensures ret0 != nil
+//@   pure
+//@ extern errors.New
+//@   ensures ret0 != nil
+//@   pure
